@@ -42,12 +42,12 @@ Definition err_formula (e1 e2 : A) : A :=
   if a_ltb ar e1 e2 then e1 else a_div ar (a_mul ar e1 e2) (a_sub ar e1 e2).
 Definition err_of (j : nat) : A := err_formula (err1 j) (err2 j).
 Definition confirmed_of (j : nat) : A := err_formula (err1 j) (err2c j).
-Definition SLACK : Z := 10%Z.
+Definition SLACK : Z := 3%Z.
 
 Definition breakdown_at (j : nat) : bool := a_ltb ar (n2 j) norm_tol.
 (* original:  if err < exp_tolerance: converged
    fixed:     if err < exp_tolerance:
-                  confirmed = ...; if not confirmed < 10 * exp_tolerance: err = confirmed
+                  confirmed = ...; if not confirmed < 3 * exp_tolerance: err = confirmed
               if err < exp_tolerance: converged *)
 Definition estimate_at (j : nat) : bool :=
   if a_ltb ar (err_of j) exp_tol then
